@@ -2022,10 +2022,13 @@ void SPxMainSM<R>::trivialHeuristic(SPxLPBase<R>& lp)
    VectorBase<R>         upLocks(lp.nCols());
    VectorBase<R>         downLocks(lp.nCols());
 
-   R            zeroObj = this->m_objoffset;
-   R            lowerObj = this->m_objoffset;
-   R            upperObj = this->m_objoffset;
-   R            lockObj = this->m_objoffset;
+   // all objective values below are in maximization form (maxObj), but m_objoffset is kept in the original sense
+   const R      maxObjOffset = (lp.spxSense() == SPxLPBase<R>::MINIMIZE) ? -this->m_objoffset :
+                               this->m_objoffset;
+   R            zeroObj = maxObjOffset;
+   R            lowerObj = maxObjOffset;
+   R            upperObj = maxObjOffset;
+   R            lockObj = maxObjOffset;
 
    bool            zerovalid = true;
 
@@ -2159,7 +2162,8 @@ bool SPxMainSM<R>::checkSolution(SPxLPBase<R>& lp, VectorBase<R> sol)
 template <class R>
 void SPxMainSM<R>::propagatePseudoobj(SPxLPBase<R>& lp)
 {
-   R pseudoObj = this->m_objoffset;
+   // maximization form (maxObj), but m_objoffset is kept in the original sense
+   R pseudoObj = (lp.spxSense() == SPxLPBase<R>::MINIMIZE) ? -this->m_objoffset : this->m_objoffset;
 
    for(int j = lp.nCols() - 1; j >= 0; --j)
    {
